@@ -1,5 +1,5 @@
 (** C13 Read-item accessors expose exactly their own item and fail-stop out of bounds. *)
-From FC Require Import Base.Res Index.IC Region.Region Region.Slice Region.Columns Region.Items Region.ItemsOk.
+From FC Require Import Base.Res Index.IC Region.Region Region.Slice Region.Columns Region.Items Region.ItemsOk Region.SliceIter.
 
 (** Slice read items, region-backed ([RS_region s a b]) and borrowed from an owned Vec
     ([RS_owned l]): there are items [xs] denoting values [vs] (the item's own elements) such that
@@ -31,3 +31,12 @@ Proof. exact (@rc_accessors). Qed.
 Theorem C13_index_denotes : forall (R : Region) (SP : RSpec R) (I : Items R) (IS : ISpec I), ItemsOK R I ->
   forall s i, inv s -> valid s i -> exists x, index I s i = Ok x /\ iwf x /\ own I x = read R s i.
 Proof. intros R SP I IS H. exact (@index_ok R SP I IS H). Qed.
+
+(** Iteration proper (D10): the iterator of a slice read item is an exact-size iterator -- before every
+    [next] it reports exactly the number of items left, and what it yields is the list every other accessor
+    is specified against. *)
+Theorem C13_slice_iterator_exact : forall (R : Region) (SP : RSpec R) (H : RegionOK R) (O : IC (idx R)) (HO : ICOk O)
+  (I : Items R) (IS : ISpec I) (HI : ItemsOK R I) (x : rslice R O), rs_wf x ->
+  exists xs, rs_iter I x = Ok xs /\ rs_len x = Ok (length xs) /\
+    ri_run I (S (length xs)) (rs_into_iter x) = Ok (combine (countdown (length xs)) xs, 0).
+Proof. exact (@rs_iterator_exact). Qed.
